@@ -63,6 +63,12 @@ structure Cfg where
   /-- does the f-string rule of the running parser put `is_raw` on the node it builds? (translated from
   `FStringRules.p_fstring_expr`; as of this writing it does not, so `fr"…"` is expanded like `f"…"`) -/
   fstrKeepsRaw : Bool
+  /-- does `BaseParser.lines` cut the source with `str.splitlines` (translated; as of this writing it does,
+  so `_source_slice` stops at the first U+000B/000C/001C-1E/0085/2028/2029 of a line: see `sourceSlice`) -/
+  linesCutAtLB : Bool
+  /-- does `_append_subproc_bang` append to `.elts` of the argument expression (translated; as of this
+  writing it does, so a macro tail after an `extend` atom crashes the parser: see `bangFits`) -/
+  bangNeedsList : Bool
 
 /-- Python's `str.isspace` (the characters `str.strip()` removes) -/
 def pySpace : List Nat :=
@@ -85,8 +91,9 @@ never reaches past the first piece: nothing if a line-boundary character occurs 
 (`lbBefore`), else the text up to and including its first such character -/
 def sourceSlice (lbBefore : Bool) (t : Str) : Str := if lbBefore = true then [] else cutAtLB t
 
-/-- the macro argument: the slice, stripped -/
-def macroArg (lbBefore : Bool) (t : Str) : Str := strip (sourceSlice lbBefore t)
+/-- the macro argument: the slice (the whole text when `lines` is cut at `\n` only), stripped -/
+def macroArg (c : Cfg) (lbBefore : Bool) (t : Str) : Str :=
+  strip (if c.linesCutAtLB = true then sourceSlice lbBefore t else t)
 
 /-- `__xonsh__.glob(s)` = `globpath(s)`: expand, ask the file system, fall back to the expanded pattern -/
 def xglob (c : Cfg) (s : Str) : List Str :=
@@ -104,10 +111,10 @@ def product : List (List Str) → List (List Str)
   | xs :: rest => xs.flatMap (fun x => (product rest).map (x :: ·))
 
 /-- `ensure_list_of_strs` applied to the run-time value of a part -/
-def partStrs : Part → List Str
+def partStrs (c : Cfg) : Part → List Str
   | .text s => [s]
   | .inj v => injectList v
-  | .macroAt lb s => [macroArg lb s]
+  | .macroAt lb s => [macroArg c lb s]
 
 /-- `list_of_list_of_strs_outer_product` -/
 def outerProduct (c : Cfg) (lolos : List (List Str)) : List Str :=
@@ -127,8 +134,8 @@ def atomAct (c : Cfg) : Atom → Act
     if raw && (!f || c.fstrKeepsRaw) then .append v            -- `is_raw`: the node itself
     else .append (Expand.expandPath c.env v)
   | .inject v => .extend (injectList v)
-  | .macroAt lb t => .append (macroArg lb t)
-  | .adjacent ps => .extend (outerProduct c (ps.map partStrs))
+  | .macroAt lb t => .append (macroArg c lb t)
+  | .adjacent ps => .extend (outerProduct c (ps.map (partStrs c)))
 
 /-- `_subproc_cliargs`: the expression `L0 + L1 + …` under construction as its list of summands,
 `open_` = the last summand is the list literal `currlist` still being appended to -/
@@ -156,13 +163,13 @@ def Act.args : Act → List Str
 
 /-- the text after a subprocess-macro `!` (`_append_subproc_bang`): the source slice, stripped, as
 ONE more element of the list -/
-def bangArg : Option (Bool × Str) → List Str
+def bangArg (c : Cfg) : Option (Bool × Str) → List Str
   | none => []
-  | some (lb, t) => [macroArg lb t]
+  | some (lb, t) => [macroArg c lb t]
 
 /-- the argument list of a command: its atoms, then the macro tail if there is one -/
 def cliargs (c : Cfg) (atoms : List Atom) (bang : Option (Bool × Str)) : List Str :=
-  weave (atoms.map (atomAct c)) ++ bangArg bang
+  weave (atoms.map (atomAct c)) ++ bangArg c bang
 
 /-- `_append_subproc_bang` does `p[2][-1].elts.append(node)`: it needs the woven expression to be still the
 ONE list literal it started as — true only while no atom was an `extend` (after the first `extend` the
@@ -172,7 +179,7 @@ def bangFits (acts : List Act) : Bool :=
 
 /-- one command as the parser + run time treat it: `none` = the parser crashes (see `bangFits`) -/
 def command (c : Cfg) (atoms : List Atom) (bang : Option (Bool × Str)) : Option (List Str) :=
-  if bang.isSome && !bangFits (atoms.map (atomAct c)) then none else some (cliargs c atoms bang)
+  if bang.isSome && c.bangNeedsList && !bangFits (atoms.map (atomAct c)) then none else some (cliargs c atoms bang)
 
 /-- an entry of `spec.cmd` before `resolve_args_list` -/
 inductive Entry where
